@@ -18,7 +18,41 @@ type ProviderStep struct {
 	Status  int    `json:"status,omitempty"`
 	Body    string `json:"body,omitempty"`
 	DelayMs int    `json:"delay_ms,omitempty"`
+	// Split > 0 (Kind resp): the body arrives in two pieces, Body[:Split] at once and the rest PieceMs later
+	// (a chunked answer, a body that spans two segments)
+	Split   int `json:"split,omitempty"`
+	PieceMs int `json:"piece_ms,omitempty"`
 }
+
+// piecesBody hands out a body piece by piece, one piece per Read.
+type piecesBody struct {
+	ctx    context.Context
+	pieces [][]byte
+	wait   time.Duration
+	n      int
+}
+
+func (b *piecesBody) Read(p []byte) (int, error) {
+	for len(b.pieces) > 0 && len(b.pieces[0]) == 0 {
+		b.pieces = b.pieces[1:]
+	}
+	if len(b.pieces) == 0 {
+		return 0, io.EOF
+	}
+	if b.n > 0 && b.wait > 0 {
+		select {
+		case <-b.ctx.Done():
+			return 0, b.ctx.Err()
+		case <-time.After(b.wait):
+		}
+		b.wait = 0
+	}
+	b.n++
+	k := copy(p, b.pieces[0])
+	b.pieces[0] = b.pieces[0][k:]
+	return k, nil
+}
+func (b *piecesBody) Close() error { return nil }
 
 type httpCall struct {
 	URL string
@@ -125,6 +159,9 @@ func (s *scriptedRT) RoundTrip(req *http.Request) (*http.Response, error) {
 			d = 300 * time.Millisecond
 		}
 		return mk(&slowBody{ctx: ctx, data: []byte(st.Body), delay: d}), nil
+	}
+	if st.Split > 0 && st.Split < len(st.Body) {
+		return mk(&piecesBody{ctx: ctx, pieces: [][]byte{[]byte(st.Body[:st.Split]), []byte(st.Body[st.Split:])}, wait: time.Duration(st.PieceMs) * time.Millisecond}), nil
 	}
 	return mk(io.NopCloser(strings.NewReader(st.Body))), nil
 }
